@@ -229,6 +229,9 @@ func run(t failer, c Case, labels ...string) {
 		return
 	}
 	vk.R.Case(in.ncomments >= 5 && in.inXGo >= 1, string(c.Src))
+	if in.ncomments >= 5 && in.inXGo >= 1 && len(c.Src) < 1500 {
+		vk.R.Sample(string(c.Src))
+	}
 	for _, l := range labels {
 		vk.R.Class(l)
 	}
